@@ -24,11 +24,20 @@ def check(spec: dict) -> core.CaseResult:
     return dagprop.result(obs, findings, nt, labels, prop='C17')
 
 
+def judge_obs(case: dict, obs) -> core.CaseResult:
+    ex = oracles.expect_for(case, obs)
+    findings, nt = oracles.c17_retention(case, obs, ex)
+    return core.CaseResult(findings=findings, nontrivial=nt or len(case['nodes']) >= 3, labels=('exhaustive-small',), summary=None)
+
+
 def plan(tier: str) -> list[dict]:
-    return dagprop.std_plan(tier, controlled=(11, 150, 2500), serial=(2, 40, 800), fork=(2, 20, 400), spawn=(1, 5, 80))
+    return list(dagprop.std_plan(tier, controlled=(11, 150, 2500), serial=(2, 40, 800), fork=(2, 20, 400), spawn=(1, 5, 80))) + dagprop.exhaustive_jobs(tier, 4)
 
 
 def run_job(rec: core.Recorder, job: dict, seed: int) -> None:
+    if job['engine'] == 'exhaustive-small':
+        dagprop.run_exhaustive_job(rec, job, judge_obs, failing=True, cached=False)
+        return
     eng = job['engine']
     fail = ['raise:ValueError', 'raise:CustomErr'] + ([] if eng == 'serial' else ['kill9'])
     strat = specs.dag_spec(min_nodes=2, max_nodes=5 if eng == 'spawn' else 9, backends=(eng,), fail_modes=fail, fail_rate=20,
